@@ -676,6 +676,74 @@ def unhex_short(line):
 
 def common_short(s):
     return short(s, 200)
+
+
+# --- DOMAIN(filtersafe): the Lean domain predicates of SqlModel/Filters/Safe.lean against the real filters ---------------
+def s_filtersafe(ctx, inputs, fuel=100000, stream='DOMAIN(filtersafe)', scripts=()):
+    """inputs: (text, chain); scripts: (list of statement S-expressions, chain).  Every statement goes through the chain on
+    the real code stage by stage; the model answers `filtersafe chain=…` (per stage: predicate on the tree that stage
+    receives, outcome).  A mismatch is (a) a different outcome label at some stage, or (b) **predicate = 1 and the real
+    stage raised** (soundness of the domain).  Tightness (predicate = 0 but no exception) is only counted."""
+    import sqlparse
+    todo = []
+    for s, chain in inputs:
+        try:
+            todo.append((s, chain, list(sqlparse.parse(s))))
+        except Exception:
+            ctx.count('filtersafe.parse-failed')
+    for trees, chain in scripts:
+        todo.append((' '.join(trees), chain, [sexp_build(sexp_parse(t.split())[0]) for t in trees]))
+    cases = []
+    for s, chain, stmts in todo:
+        if not stmts:
+            continue
+        names = chain.split(',')
+        objs = [(n, make_treefilter(n)) for n in names]
+        before = [sexp(st) for st in stmts]
+        real = []
+        dead = False
+        for st in stmts:
+            stages = []
+            for n, f in objs:
+                try:
+                    f.process(st)
+                    if n.startswith('out'):
+                        st.tokens = list(st.tokens)
+                    stages.append((n.split(':')[0], 'ok'))
+                except Exception as e:
+                    stages.append((n.split(':')[0], type(e).__name__))
+                    dead = True
+                    break
+            real.append(stages)
+            if dead:
+                break
+        cases.append((s, chain, 'filtersafe chain=%s %d %s' % (chain, fuel, ' '.join(before)), real, len(stmts)))
+    outs = ctx.model.ask([c[2] for c in cases])
+    n = 0
+    for (s, chain, _, real, k), mo in zip(cases, outs):
+        ctx.stream(stream, inputs=k, lines=1)
+        n += k
+        if not mo.startswith('ok'):
+            ctx.mismatch(stream, (s, chain), mo[:200], 'real: %r' % (real,))
+            continue
+        groups = [g.split() for g in mo[2:].split('|')]
+        model = [[tuple(x.split(':')) for x in g] for g in groups]
+        bad = None
+        if len(model) != len(real):
+            bad = 'statement count'
+        else:
+            for ms, rs in zip(model, real):
+                if [(a, c) for a, _, c in ms] != rs:
+                    bad = 'outcome'
+                    break
+                for (a, b, c) in ms:
+                    key = '%s:%s pred=%s %s' % (stream, a, b, 'ok' if c == 'ok' else 'err ' + c)
+                    ctx.count(key)
+                    if b == '1' and c not in ('ok', 'RecursionError'):
+                        bad = 'predicate true but %s raised %s' % (a, c)
+        if bad:
+            ctx.mismatch(stream, (s, chain), mo[:300], '%s; real: %r' % (bad, real))
+    return n
 # <<< formatting side
 
 
